@@ -168,4 +168,3 @@ func bucketOf(key string) string {
 	}
 	return key
 }
-
